@@ -16,7 +16,7 @@ from ..refs import pbm as ref
 LEVEL = "exploration"
 ASSUMPTIONS = [
     "reference = scalar loops written from the statement (vk/refs/pbm.py); comparison rtol 1e-12 on the magnitude of the terms entering each class",
-    "a nucleation radius at or above the top of the grid is only required to obey the sum rule; one below the bottom of the grid must not land in a class other than the first (reading stated in DESIGN.md section 3)",
+    "a nucleation radius outside the grid lies in no class: the nuclei must then enter the nearest class (the first for a radius below the grid, the last for one at or above its top) and obey the sum rule (reading stated in DESIGN.md section 3)",
     "the per-face limited fluxes are read from the model's documented temporary storage (_netFlux)",
 ]
 
@@ -71,6 +71,9 @@ def check_transport(case):
             elif where == "below":
                 if got != [0]:
                     out.fail("nucleation_below_grid", "radius %r is below the grid (min %r) and the nucleation term went to class(es) %r of %d" % (r, b[0], got, N), radius_where="below")
+            elif where == "above":
+                if got != [N - 1]:
+                    out.fail("nucleation_above_grid", "radius %r is at or above the top of the grid (max %r) and the nucleation term went to class(es) %r of %d (the nearest class is the last one)" % (r, b[-1], got, N), radius_where="above")
             out.label("nuc_" + (where if isinstance(where, str) else "inside"))
             if isinstance(where, int) and (r == b[where]):
                 out.label("nuc_on_boundary")
@@ -153,6 +156,10 @@ def check_limited(case):
         got = [int(i) for i in np.where(np.abs(resid) > 8 * EPS * (mag + abs(J)) + 1e-300)[0]]
         if got != [0]:
             out.fail("nucleation_below_grid", "after correction: radius %r below the grid, nucleation term in class(es) %r of %d" % (r, got, N), radius_where="below")
+    elif where == "above" and J > 1e3 * EPS * float(np.max(mag) if N else 0):
+        got = [int(i) for i in np.where(np.abs(resid) > 8 * EPS * (mag + abs(J)) + 1e-300)[0]]
+        if got != [N - 1]:
+            out.fail("nucleation_above_grid", "after correction: radius %r at or above the top of the grid, nucleation term in class(es) %r of %d" % (r, got, N), radius_where="above")
     # classes obeying the step limit never go negative
     ratio = case["ratio"]
     dR = np.diff(b)
